@@ -64,8 +64,13 @@ PSchemas == {[SchemaOf("p", [i \in DOMAIN s |-> ObjOf(s[i])]) EXCEPT !.entry = e
                                e2 = "" \/ e2 = s2[1][1]}}
 \* a package whose name differs from "p" only in letter case and holds the same object/field names: selection is
 \* "package exact", so nothing aimed at p may touch it (one-object IRs only: it adds no states, only volume)
+\* when p holds both Foo and Bar, q also holds a DISCRIMINATED union of references into p: a union whose branches live in
+\* another package than the union itself (renaming a branch target must rewrite the mapping over there too)
+QSchemaU == [QSchema EXCEPT !.objects = Append(@, Obj("q", "U",
+               TDisj(<<TRef("p", "Foo"), TRef("p", "Bar")>>, "kind", <<MapTo("x", "Foo"), MapTo("y", "Bar")>>)))]
+QFor(ps) == IF {"Foo", "Bar"} \subseteq {ps.objects[i].name : i \in DOMAIN ps.objects} THEN QSchemaU ELSE QSchema
 UpperPSchema == SchemaOf("P", <<Obj("P", "Foo", TStruct(<<FieldC("a", AsNullable(TString), TRUE, <<"fa">>), Field("B", TRef("P", "Foo"), FALSE)>>))>>)
-InitIRs == {IF Len(ps.objects) = 1 THEN <<ps, QSchema, UpperPSchema>> ELSE <<ps, QSchema>> : ps \in PSchemas}
+InitIRs == {IF Len(ps.objects) = 1 THEN <<ps, QSchema, UpperPSchema>> ELSE <<ps, QFor(ps)>> : ps \in PSchemas}
 
 (* ---------------------------- parameterisations ------------------------ *)
 ORefs  == {ObjRef("p", "Foo"), ObjRef("p", "foo"), ObjRef("p", "Bar"), ObjRef("q", "foo"), ObjRef("p", "Zed"), ObjRef("p", "spec")}
